@@ -7,6 +7,7 @@ from ..common import exc_name, has_unmodelled
 from ..runner import Outcome
 
 LEVEL = "proof"
+TRUSTED_EXTRA = ["translator verif/gen_bodies.py (Python ast -> PyIR terms, purely syntactic)", "PyIR interpreter (lean/MafModel/MafModel/PyIR/Interp.lean), validated on every run against the real SortOrderKey.compare (body.compare)"]
 ASSUMPTIONS = ["well-formed coordinates: chromosome a name (text or integer-typed), start/end integers or integer texts, barcodes texts; anything may be missing (None)"]
 OPS = ["lt", "le", "gt", "ge", "eq", "ne"]
 
